@@ -1,9 +1,10 @@
 // C07 / C08 / C09 (hour pillar): sexagenary day and hour views
 use std::io::Write;
+use tyme4rs::tyme::jd::JulianDay;
 use tyme4rs::tyme::solar::SolarTime;
 use crate::util::*;
 
-const OPS: &[&str] = &["scd", "sch"];
+const OPS: &[&str] = &["scd", "sch", "jd.week", "jd.weekf"];
 
 pub fn exec(op: &str, a: &[i64]) -> Option<Option<String>> {
   if OPS.contains(&op) { Some(go(op, a)) } else { None }
@@ -27,6 +28,17 @@ pub fn go(op: &str, a: &[i64]) -> Option<String> {
       let lh = t.get_lunar_hour();
       Some(format!("{} {} {} {} {} {} {}", v.get_year().get_index(), v.get_month().get_index(), v.get_day().get_index(),
         v.get_sixty_cycle().get_index(), v.get_index_in_day(), lh.get_sixty_cycle().get_index(), lh.get_index_in_day()))
+    }
+    // weekday of the Julian day of an INSTANT (fractional Julian date: any time of day) — JulianDay::get_week
+    ("jd.week", 6) => {
+      let t = SolarTime::new(a[0] as isize, us(a[1])?, us(a[2])?, us(a[3])?, us(a[4])?, us(a[5])?).ok()?;
+      Some(format!("{}", t.get_julian_day().get_week().get_index()))
+    }
+    // weekday of the raw Julian date (day number j, k seconds after civil midnight): from_julian_day(j - 0.5 + k/86400)
+    ("jd.weekf", 2) => {
+      if a[0] < 1721424 || a[0] > 5373484 || a[1] < 0 || a[1] >= 86400 { return None; }
+      let jd = JulianDay::from_julian_day(a[0] as f64 - 0.5 + (a[1] as f64) / 86400.0);
+      Some(format!("{}", jd.get_week().get_index()))
     }
     _ => Some("bad-op".to_string()),
   }
